@@ -127,3 +127,11 @@ def run_case(col, r, idx):
 
 def derive(counters):
     counters['op_kinds_seen'] = sum(1 for k in counters if k.startswith('kind:'))
+
+
+def _suite_under_monitor(col):
+    from .. import suiteworkload
+    suiteworkload.run(col, ('M3',), 'tree-invariants-at-print')
+
+
+THOROUGH_EXTRA = [('the repository test suite under the universal monitors', _suite_under_monitor)]
